@@ -52,6 +52,33 @@ static void wrap_case(int32_t lo, int32_t hi, int32_t o, int32_t p, bool force_e
   }
 }
 
+// two-component values: the extremes of the data sit in the SECOND component of the first entry (hi) and of a later entry (lo), or the other way round;
+// the announced range must still be [lo, hi] and every component must come back
+static void wrap_case2(int32_t lo, int32_t hi, int32_t o, int32_t p, bool hi_first) {
+  if (lo > hi || o < lo || o > hi) return;
+  if ((int64_t)hi - (int64_t)lo >= 0x7fffffffLL) return;
+  PredictionSchemeWrapEncodingTransform<int32_t, int32_t> enc;
+  const int32_t e1 = hi_first ? hi : lo, e2 = hi_first ? lo : hi;
+  int32_t data[6] = {o, e1, o, e2, o, o};
+  enc.Init(data, 6, 2);
+  EncoderBuffer eb;
+  enc.EncodeTransformData(&eb);
+  PredictionSchemeWrapDecodingTransform<int32_t, int32_t> dt;
+  dt.Init(2);
+  DecoderBuffer db;
+  db.Init(eb.data(), eb.size());
+  const bool initok = dt.DecodeTransformData(&db);
+  const int32_t o2[2] = {o, e1}, p2[2] = {p, p};
+  int32_t c2[2] = {0, 0}, d2[2] = {0, 0};
+  enc.ComputeCorrection(o2, p2, c2);
+  if (initok) dt.ComputeOriginalValue(p2, c2, d2);
+  n_run += 2;
+  for (int k = 0; k < 2; ++k) {
+    out.begin("Wrap").w32("lo", lo).w32("hi", hi).w32("o", o2[k]).w32("p", p).w32("c", c2[k]).w32("d", d2[k]).b("initok", initok).end();
+    ++n_emitted;
+  }
+}
+
 static int32_t anchored(vrt::Rng &r, int32_t lo, int32_t hi) {
   // values near the interesting anchors: type limits, zero, range ends
   const int k = r.range(0, 40);
@@ -81,6 +108,7 @@ static int run_wrap(uint64_t seed, long long nrandom) {
           wrap_case(INT32_MAX - b, INT32_MAX - a, INT32_MAX - c, (int32_t)std::min<int64_t>(INT32_MAX, (int64_t)INT32_MAX - d), (a + b + c + d) % 97 == 1);
           // around zero
           wrap_case(a - 6, b - 6, c - 6, d - 6, (a + b + c + d) % 97 == 2);
+          if ((a + b + c + d) % 11 == 0) wrap_case2(a - 6, b - 6, c - 6, d - 6, (a + b) % 2 == 0);
           // far predictions
           wrap_case(a - 6, b - 6, c - 6, INT32_MAX - d - 2, (a + b + c + d) % 97 == 3);
           wrap_case(a - 6, b - 6, c - 6, INT32_MIN + d + 2, (a + b + c + d) % 97 == 4);
@@ -111,6 +139,7 @@ static int run_wrap(uint64_t seed, long long nrandom) {
     }
     const int32_t p = anchored(r, lo, hi);
     wrap_case(lo, hi, o, p, i % 16 == 0);
+    if (i % 64 == 5) wrap_case2(lo, hi, o, p, (i / 64) % 2 == 0);
   }
   fprintf(stderr, "STATS run=%lld emitted=%lld suspect=%lld\n", n_run, n_emitted, n_suspect);
   return 0;
